@@ -3,6 +3,7 @@
 -/
 import Lemmas.Words
 import Lemmas.FirstEntry
+import Lemmas.LinebreakTable
 namespace TW.C11
 
 /-- the text a word stands for -/
@@ -300,5 +301,29 @@ theorem first_entry_unique (line a b ra rb : Text) (ha : line = a ++ ra) (hb : l
 example : uniPieces [4] ['f', 'o', 'o', ' ', ESC, '[', '1', 'm', 'b', 'a', 'r'] =
     [['f', 'o', 'o', ' '], [ESC, '[', '1', 'm', 'b', 'a', 'r']] := by decide
 example : usedOpps "aaa bbb ccc-".toList [4, 8, 12] = some [4, 8] := by decide
+
+
+/-! ### the opportunities themselves: `unicode_linebreak::linebreaks` inside the model
+
+`TextwrapModel/Linebreak.lean` transcribes the crate's scan; `Lemmas/Linebreak.lean` proves, for ANY
+pair table and class function, that the reported offsets are char boundaries, strictly increasing
+and at most the byte length; `Lemmas/LinebreakTable.lean` adds, for the tables regenerated from the
+crate cargo resolved, positivity (LB2) and LB7 for texts without hard-line-break characters — the
+clauses the theorems above and those of C01/C04/C05/C13/C14 take as hypotheses on `env.opps`. Which
+offsets UAX #14 asks for is not stated anywhere in textwrap's properties; that the scan modelled
+here is the one the code runs is checked on every case by the driver (`lb=0[…]` on a difference)
+and by `lbScan_pinned` (hash of the function's source). -/
+
+-- @audit TW.ownOpps_contract
+-- @audit TW.ownOpps_noSpace
+-- @audit TW.ownOpps_space_after_hard
+-- @audit TW.lbTables_lb7
+-- @audit TW.lbScan_pinned
+
+/-- the Unicode separator never panics on the model's own opportunities (any tables) -/
+-- @audit TW.C11.findWordsUnicode_total_ownlb
+theorem findWordsUnicode_total_ownlb (env : Env) (T : LbTables) (henv : env.opps = ownOpps T) (line : Text) :
+    ∃ ws, findWordsUnicode env line = some ws :=
+  _root_.TW.findWordsUnicode_total env line (boundary_own env T henv (stripAnsi line))
 
 end TW.C11
